@@ -2,6 +2,7 @@ package gen
 
 import (
 	"fmt"
+	"sort"
 
 	. "verif/jt"
 )
@@ -15,6 +16,8 @@ type Case struct {
 	DB      string
 	Coll    string
 	ID      int
+	// MemberOrder: "" (command name first, as the server writes it), "sorted", "verb-last"
+	MemberOrder string
 }
 
 var Verbs = []string{"find", "aggregate", "count", "distinct", "findAndModify", "update", "delete", "insert", "wupdate", "wremove"}
@@ -240,6 +243,19 @@ func (g *Gen) Case(o CaseOpts) *Case {
 	}
 	g.serial++
 	cs.ID = g.serial
+	if !wstyle && cmd.K == Obj && len(cmd.Keys) > 1 {
+		// member order of the command document: the server writes the command name first, but a log
+		// that went through a key-sorting re-serialisation (jq -S, a log shipper) does not. Every
+		// seventh case has its members sorted, every seventh has the command name moved to the end.
+		switch cs.ID % 7 {
+		case 3:
+			reorderMembers(cmd, true)
+			cs.MemberOrder = "sorted"
+		case 5:
+			reorderMembers(cmd, false)
+			cs.MemberOrder = "verb-last"
+		}
+	}
 
 	comp, msg := cs.Comp, "Slow query"
 	if comp == "OTHER" {
@@ -446,4 +462,23 @@ func (g *Gen) DeepTree(depth int) *Node {
 		}
 	}
 	return inner
+}
+
+// reorderMembers permutes the members of an object node in place (tags stay with their
+// nodes): sorted by key, or the first member moved to the end.
+func reorderMembers(n *Node, sorted bool) {
+	idx := make([]int, len(n.Keys))
+	for i := range idx {
+		idx[i] = i
+	}
+	if sorted {
+		sort.SliceStable(idx, func(a, b int) bool { return n.Keys[idx[a]] < n.Keys[idx[b]] })
+	} else {
+		idx = append(idx[1:], idx[0])
+	}
+	keys, vals := make([]string, len(idx)), make([]*Node, len(idx))
+	for i, j := range idx {
+		keys[i], vals[i] = n.Keys[j], n.Vals[j]
+	}
+	n.Keys, n.Vals = keys, vals
 }
